@@ -24,10 +24,10 @@ CLAIMS = {
         technique="AST linkage rule + symbol-provision rule over IR + exhaustive compile/link witnesses"),
     'C20': dict(
         text="Decides, for every path of every public smart-pointer / array entry point (whole-library inlined IR), that the first guard "
-             "event on each object argument is the getter's self-address test and never a re-stamp; that the getter's pointer load and "
-             "returns are dominated by self == gp with abort on the other edge; that the setter stamps on every path; that guarded-pointer "
+             "event on each object argument is the getter's self-address test and never a re-stamp; that every load of a guarded pointer value (whole-library inlined, whatever helper it sits in) is "
+             "dominated by the fact self == object with abort on the other edge; that every store of the pointer value is paired with a re-stamp; that guarded-pointer "
              "fields are touched only by that accessor pair; and that no library function bitwise-copies an object containing one. "
-             "Behaviour of client code that copies objects is outside the model.",
+             "Conversely the documented (re)initialisers never test the guard of the object they overwrite. Behaviour of client code that copies objects is outside the model.",
         technique="path-sensitive typestate dataflow + dominating facts + field-effect rule over LLVM IR; AST for entry points"),
 }
 
@@ -37,7 +37,7 @@ CLAIMS['C09'] = dict(
          "committed only in the success region of realloc, which is handed the current block; (V3) at() returns only under i < count "
          "and aborts only under count <= i; (V4) resize changes count / runs xtors only after re-checking sz <= cap, aborting "
          "otherwise, and reserve grows only when sz > cap; (V7) the scratch slot used by sort/reverse is element index cap and the "
-         "setter allocates (request+1)*size. Constructor/destructor exactly-once counts and byte preservation beyond realloc's "
+         "setter allocates (request+1)*size; (V8) swap exchanges every member of the two vectors, the constructor/destructor description included. Constructor/destructor exactly-once counts and byte preservation beyond realloc's "
          "contract are NOT decided.",
     technique="no-wrap obligations by dominating-facts entailment over inlined LLVM IR; allocator-result discipline; structural agreement rules")
 CLAIMS['C10'] = dict(
@@ -46,7 +46,7 @@ CLAIMS['C10'] = dict(
          "(T2) every function that resizes the underlying vector asks for n+1 elements and writes the NUL at element n through the "
          "re-read base pointer on every path, and nothing else changes the count; (T3) positional operations touch the buffer only "
          "under the documented bound (pos <= size for insert, pos < size otherwise) and abort on the other edge; (T4) str() never "
-         "returns NULL; (T5) the wide instantiation scales every byte count handed to memcpy/memmove/memset by the character size. Equality with a reference string and agreement of find/compare with the C library are NOT decided.",
+         "returns NULL; (T5) the wide instantiation scales every byte count handed to memcpy/memmove/memset by the character size and uses memset only to fill with 0; (T6) resize's NUL fill of the grown part starts at the old size. Equality with a reference string and agreement of find/compare with the C library are NOT decided.",
     technique="no-wrap obligations by dominating-facts entailment over inlined LLVM IR; dominance / post-dominance rules; both template instantiations")
 
 CLAIMS['C14'] = dict(
@@ -55,7 +55,7 @@ CLAIMS['C14'] = dict(
          "of the guarded pointer slot); (A2) the allocation size cannot wrap; (A3) slice arithmetic cannot wrap and the new off/len are "
          "stored only under beg <= end and a wrap-free off + end <= nm, rejected ranges abort; (A4) at() returns only under i < len, "
          "aborts only under len <= i, and addresses element off + i; (A5) release hands back only an external, uniquely referenced "
-         "buffer and resets the object there, otherwise reports NULL and changes nothing; (A6) array code never frees/allocates "
+         "buffer -- the descriptor's own buffer pointer, never a pointer into it -- and resets the object there, otherwise reports NULL and changes nothing; (A6) array code never frees/allocates "
          "directly and shares exactly when the two objects differ. History-level 'released exactly once' rests on C05.",
     technique="path-sensitive typestate with a store/load model + no-wrap obligations + dominating facts over inlined LLVM IR")
 
@@ -74,7 +74,7 @@ CLAIMS['C04'] = dict(
          "walk reachable from foreach / foreach_const / clear is bounded by a value that covers both geometries or is preceded by the "
          "forced rehash; (E2) foreach, whose callback may erase, forces the rehash first; (E3) the chain walker never touches a node "
          "after its visit returned; (E4) clear re-establishes every constant that init sets (bucket.cst exempt, reasoned) and frees the "
-         "array exactly once; (E5) after a non-zero visit no further visit happens and that value is returned (path-sensitive). That "
+         "array exactly once; (E5) after a non-zero visit no further visit happens and that value is returned (path-sensitive); (E6) resize empties and stamps exactly the buckets from the current count (read after the forced rehash) up to the requested count. That "
          "the relocation arithmetic puts every node in exactly one chain is NOT decided.",
     technique="role discovery by effect + pending-aware value classification over branch facts + typestate (stop value) + init/clear sibling agreement")
 
@@ -84,7 +84,7 @@ CLAIMS['C19'] = dict(
          "forces the rehash first; (S3) insert/find/erase cannot reach the completer, call the sweep with a constant quota q >= 1 with "
          "q + directly cleaned buckets <= 3, the sweep's cleaner calls sit in the quota loop, and no other bucket-array walk is "
          "reachable; (S4) completion adopts count and function before clearing the pending marker, resize records the requested "
-         "count / requested-else-existing-else-default function and restarts the sweep; (S5) exactly one hash call per lookup when "
+         "count / requested-else-existing-else-default function (each alternative judged under the facts of its own selection edge; the existing function must be read after the forced rehash) and restarts the sweep; (S5) exactly one hash call per lookup when "
          "nothing is pending (path-sensitive). Histories of requests and the sweep's arithmetic are NOT explored.",
     technique="role discovery by effect + call-graph reachability + pending-aware value classification + typestate call counting over LLVM IR")
 
@@ -93,10 +93,10 @@ CLAIMS['C03'] = dict(
          "written: (L1) keyed operations use only the bucket the pending-aware lookup returns; (L2) that lookup hashes under both "
          "geometries and examines both buckets when a rehash is pending and returns the pending-geometry bucket, the current one "
          "otherwise (path-sensitive, inlined); (L3) the cleaner relocates each node by its own key with the pending geometry, detaches "
-         "the chain first and marks the bucket clean on every dirty path; (L4) the element count moves exactly with chain insertions "
-         "and splices; (L5) resize forces the old rehash, then flips the clean bit, then records the pending geometry on every path (a flip is never left without a pending rehash), adopts a geometry without sweeping only on the very first resize, new buckets "
-         "empty and clean; (L6) find calls the caller's visit only under key equality; (L7) the bucket-array byte size cannot wrap. "
-         "That the sweep's arithmetic visits every bucket, chain contents over histories, and swap are NOT decided.",
+         "the chain first and marks the bucket clean on every dirty path (path-sensitive: an empty dirty bucket too); (L4) the element count moves exactly with chain insertions "
+         "and splices; (L5) resize forces the old rehash, then flips the clean bit, then records the pending geometry on every path (a flip is never left without a pending rehash), adopts a geometry without sweeping only on the very first resize, the added buckets are exactly [count read after the forced rehash, requested count), new buckets "
+         "empty and clean; (L6) find calls the caller's visit only under key equality; (L7) the bucket-array byte size cannot wrap; (L8) the bucket array is only grown, or cut to the (effective) bucket count after the forced rehash; (L9) swap exchanges every member. "
+         "That the sweep's arithmetic visits every bucket, chain contents over histories, are NOT decided.",
     technique="role discovery by effect + path-sensitive typestate over inlined LLVM IR + dominance/ordering rules + no-wrap obligations")
 
 CLAIMS['C12'] = dict(
@@ -104,7 +104,7 @@ CLAIMS['C12'] = dict(
          "re-anchors both lists to their own sentinel in the empty and the non-empty case, reading the links after the bitwise swap; "
          "(D3) concat splices only distinct lists, adds the size once and re-initialises the source; (D4) foreach binds next for FWD "
          "and prev for REV, never touches a node after its visit, and propagates the first non-zero result (path-sensitive); (D5) "
-         "size is adjusted exactly once per primitive; (D6) reverse links its two cursors directly only under the adjacency test. The link correctness of reverse / sort / merge and equality with a reference "
+         "size is adjusted exactly once per primitive; (D6) reverse links its two cursors directly only under the adjacency test; (D7) swap exchanges every member; (D8) push_front / push_back / insert pass the anchor matching the direction in which the link primitive links; (D9) a visiting walk ends at the head sentinel, never at an element; (D10) callbacks get the context supplied with them. The link correctness of reverse / sort / merge and equality with a reference "
          "sequence are NOT decided.",
     technique="documentation-contract rule (AST + IR return values) + dominating facts + typestate over LLVM IR")
 CLAIMS['C13'] = dict(
@@ -112,7 +112,7 @@ CLAIMS['C13'] = dict(
          "function that writes a node link also maintains the same list's tail pointer (or re-initialises that list); (N3) swap "
          "re-anchors an empty list's tail to its own head link, reading the count after the swap; (N4) foreach reads the successor "
          "before the visit and propagates the first non-zero result; (N5) count is adjusted exactly once per primitive, concat adds "
-         "once and re-initialises the source; (N6) the tail is only ever set to the head link, another tail, or a node known to exist. That reverse / sort / merge produce the right order is NOT decided.",
+         "once and re-initialises the source; (N6) the tail is only ever set to the head link, another tail, or a node known to exist; (N7) swap exchanges every member; (N8) push_front / push_back / insert_after pass the anchor after which the primitive links; (N9) callbacks get the context supplied with them. That reverse / sort / merge produce the right order is NOT decided.",
     technique="documentation-contract rule (AST + IR return values) + field-effect rule + dominating facts + typestate over LLVM IR")
 
 CLAIMS['C01'] = dict(
@@ -121,8 +121,8 @@ CLAIMS['C01'] = dict(
          "and returns the first non-zero result (path-sensitive typestate; the suite never returns non-zero from a visit); (W2) "
          "foreach binds (left,right) for FWD and (right,left) for REV and returns the walker's result, the adapter forwards "
          "element/order/result unchanged; (W3) size is written only as 0 or size+/-1, exactly once per insert/unlink path; (W4) insert "
-         "and find agree on comparison argument order and descent direction; (W5) erase unlinks exactly the node find returned, only "
-         "when non-NULL, and returns it; (W6) a non-NULL find result is the node that compared equal; (W7) insert links the new node only into a slot just read as NULL. That relinking in the two-child "
+         "and find agree on comparison argument order and descent direction; (W5) erase (lookup and unlink routines recognised by effect; path-sensitive) unlinks exactly the node the lookup returned, exactly once and only "
+         "when non-NULL, and returns it, NULL otherwise; (W6) a non-NULL find result is the node that compared equal; (W7) insert links the new node only into a slot just read as NULL; (W8) swap exchanges every member of the tree objects; (W9) comparison / visit calls get the context stored beside the function. That relinking in the two-child "
          "erase case and in rotations preserves the multiset and the order is NOT decided (heap-shape reasoning).",
     technique="path-sensitive typestate over the recursive walker + sibling agreement + dominating facts over LLVM IR")
 CLAIMS['C15'] = dict(
@@ -130,23 +130,23 @@ CLAIMS['C15'] = dict(
          "written through its node (slist/dlist clear, tree walker after POST/LEAF and after recursing into a child, tree/map/hash "
          "clear adapters; the map node is freed only after the callback, which sees a detached iterator); (K2) every node gets exactly "
          "one hand-off (walker protocol; the tree adapter calls back exactly for POST/LEAF and returns 0 for every order; list loops "
-         "hand off once per iteration); (K3) clear re-establishes the initial state (trees incl. rbtree/heap/map through their "
+         "hand off once per iteration); (K3) clear re-establishes the initial state on every path (path-sensitive for the tree; trees incl. rbtree/heap/map through their "
          "wrappers, slist via the initialiser's stores, dlist via a drain loop that exits only under size == 0).",
     technique="path-sensitive typestate (hand-off state, walker protocol) + dominance + init/clear sibling agreement over LLVM IR")
 
 CLAIMS['C08'] = dict(
     text="Decides the map's own contract on every path of the code as written (the tree underneath is C01/C02's business): (P1) "
          "insert distinguishes found / new / allocation-failed and in each case performs exactly the documented effects and return "
-         "code (path-sensitive typestate over call events); (P2) erase-by-key erases only a found entry, returns 0 / -1 accordingly "
-         "and reports a detached iterator, erase-by-iterator unlinks then frees that same node once; (P3) stored key/value pointers are "
+         "code (path-sensitive typestate over call events); (P2) erase-by-key (lookup recognised by effect; path-sensitive) erases only a found entry, exactly once, returns 0 / -1 accordingly "
+         "and reports a detached iterator only through a non-NULL out-parameter, erase-by-iterator unlinks then frees that same node once; (P3) stored key/value pointers are "
          "written only at node creation; (P4) the insert hint is the parent reported by the find on the same key with no mutation in "
-         "between; (P5) clear = C15's map instance.",
+         "between; (P5) clear = C15's map instance (the callback runs on every path on which one was supplied); (P6) callbacks get the context supplied with them.",
     technique="path-sensitive typestate over call events + field-effect rule + dominance over LLVM IR")
 CLAIMS['C11'] = dict(
     text="Thin by design: decides only clauses with a type- or shape-level necessary condition: (X1) no size_t count/index is "
          "narrowed in the raw-array routines; (X2) every algorithm selector reaches a sort of the caller's array and the default "
          "re-dispatches to an explicit case (terminates); (X3) the sift-down reads computed child elements only under child < count; "
-         "(X4) linear find returns the ascending loop's index under cmp == 0, else -1. 'Sorted permutation', 'search finds iff "
+         "(X4) linear find returns the ascending loop's index under cmp == 0, else -1; (X5) the quicksort pivot index is proven below count per alternative, or refuted by folding the index expression over rand()'s range (no verdict otherwise); (X6) every comparison call gets the context supplied with the function. 'Sorted permutation', 'search finds iff "
          "present' and partition bounds are NOT decided.",
     technique="taint + truncation rule, switch coverage, dominating facts over LLVM IR; enumerators from the AST")
 
@@ -162,7 +162,7 @@ CLAIMS['C05'] = dict(
 CLAIMS['C06'] = dict(
     text="STRUCTURE ONLY -- no interleaving is explored. Decides preconditions without which no schedule argument can hold: (A1) the "
          "three counters are _Atomic and every access is an atomic instruction (unpublished initialisation excepted); (A2) the "
-         "decrements that gate destruction are RMWs with ordering >= acq_rel whose own result is tested; (A3) the spin flag is "
+         "decrements that gate destruction (judged on the inlined entry points, so helper-wrapped ones count) are RMWs with ordering >= acq_rel whose own result is tested, or release-ordered with an acquire fence dominating everything done under the tested result; (A3) the spin flag is "
          "released on every path and nothing is called while it is held; (A4) every RMW on the owner count in the speculative-"
          "increment function lies inside the flag-held region; (A5) after a function's reference decrement the block is only "
          "freed, never accessed. Linearizability, progress and race freedom over schedules are NOT decided.",
